@@ -100,7 +100,7 @@ class SSCChart(BaseChart):
 
         for param in iterator:
             key = param.key.upper()
-            if key in BaseSimfile.MULTI_VALUE_PROPERTIES:
+            if key in BaseSimfile.MULTI_VALUE_PROPERTIES and param.value is not None:
                 self[key] = ":".join(param.components[1:])
             else:
                 self[key] = param.value
@@ -116,7 +116,9 @@ class SSCChart(BaseChart):
             if value is self.notes:
                 notes_key = key
                 continue
-            if key in BaseSimfile.MULTI_VALUE_PROPERTIES:
+            if value is None:
+                param = MSDParameter((key,))
+            elif key in BaseSimfile.MULTI_VALUE_PROPERTIES:
                 param = MSDParameter((key, *value.split(":")))
             else:
                 param = MSDParameter((key, value))
@@ -217,7 +219,7 @@ class SSCSimfile(BaseSimfile):
         partial_chart: Optional[SSCChart] = None
         for param in parser:
             key = param.key.upper()
-            if key in BaseSimfile.MULTI_VALUE_PROPERTIES:
+            if key in BaseSimfile.MULTI_VALUE_PROPERTIES and param.value is not None:
                 value: Optional[str] = ":".join(param.components[1:])
             else:
                 value = param.value
